@@ -215,6 +215,13 @@ def _show_gens(gens):
 # boolean normal form
 # ----------------------------------------------------------------------
 
+def listlike(k):
+    """A value known to be a list: literal, list comprehension, or a
+    concatenation of such."""
+    return k[0] == 'list' or (k[0] == 'comp' and k[1] == 'list') or (
+        k[0] == 'strcat' and listlike(k[1]) and listlike(k[2]))
+
+
 def strcat(a, b):
     """Concatenation, re-associated to the left (a + (b + c) == (a + b) + c
     for strings and lists), so that building a text piecewise or in one
@@ -224,6 +231,14 @@ def strcat(a, b):
 
     def is_str(k):
         return k[0] == 'const' and isinstance(k[1], str)
+    if a[0] == 'list' and b[0] == 'list':
+        return ('list', a[1] + b[1])            # [x] + [y] == [x, y]
+    if b[0] == 'list' and a[0] == 'strcat' and a[2][0] == 'list':
+        return strcat(a[1], ('list', a[2][1] + b[1]))
+    if a == ('list', ()) and listlike(b):
+        return b
+    if b == ('list', ()) and listlike(a):
+        return a
     if is_str(a) and is_str(b):
         return ('const', a[1] + b[1])       # 'ab' 'cd' == 'abcd'
     if is_str(b) and a[0] == 'strcat' and is_str(a[2]):
@@ -246,6 +261,56 @@ def lits_of(k, pol=True):
     if k[0] == 'const':
         return set() if k[1] else {('const', False)}
     return {k}
+
+
+def ifexp(c, a, b):
+    """Conditional value with the test in positive polarity."""
+    if c[0] == 'const' and isinstance(c[1], bool):
+        return a if c[1] else b
+    if c[0] == 'not':
+        return ('ifexp', c[1], b, a)
+    if c[0] == 'cmp' and c[1] == '<=':
+        return ('ifexp', b_not(c), b, a)
+    if a == b:
+        return a
+    return ('ifexp', c, a, b)
+
+
+def lift_ifexp(k, depth=0):
+    """Move a conditional sub-value to the top: f(a if c else b) ==
+    f(a) if c else f(b) (not across comprehension / lambda boundaries)."""
+    if depth > 4:
+        return k
+
+    def find(x):
+        if not isinstance(x, tuple) or not x:
+            return None
+        if x[0] == 'ifexp':
+            return x
+        if x[0] in ('comp', 'lambda', 'sum', 'exists'):
+            return None
+        for y in x:
+            if isinstance(y, tuple):
+                r = find(y)
+                if r is not None:
+                    return r
+        return None
+
+    def subst(x, old, new):
+        if x == old:
+            return new
+        if not isinstance(x, tuple):
+            return x
+        return tuple(subst(y, old, new) if isinstance(y, tuple) else y
+                     for y in x)
+    if k[0] == 'ifexp':
+        return ifexp(k[1], lift_ifexp(k[2], depth + 1),
+                     lift_ifexp(k[3], depth + 1))
+    t = find(k)
+    if t is None:
+        return k
+    return ifexp(t[1], lift_ifexp(subst(k, t, t[2]), depth + 1),
+                 lift_ifexp(subst(k, t, t[3]), depth + 1))
 
 
 def exists_key(gens, lits):
@@ -328,6 +393,13 @@ def b_cmp(op, a, b):
         return ('cmp', 'is', a, b)
     if op == 'is not':
         return ('not', ('cmp', 'is', a, b))
+    if op in ('in', 'not in') and b[0] in ('tuple', 'list', 'set') \
+            and 0 < len(b[1]) <= 8 and all(
+                x[0] in ('const', 'num') for x in b[1]):
+        # x in ('a', 'b')  ==  x == 'a' or x == 'b'
+        alts = tuple(sorted(set(b_cmp('==', a, x) for x in b[1]), key=_sk))
+        r = alts[0] if len(alts) == 1 else ('or', alts)
+        return r if op == 'in' else b_not(r)
     if op == 'in':
         return ('cmp', 'in', a, b)
     if op == 'not in':
@@ -663,8 +735,8 @@ class Evaluator(object):
         return ('and', tuple(sorted(parts, key=_sk)))
 
     def ev_IfExp(self, n, st):
-        return ('ifexp', as_bool(self.k(n.test, st)), self.k(n.body, st),
-                self.k(n.orelse, st))
+        return ifexp(as_bool(self.k(n.test, st)), self.k(n.body, st),
+                     self.k(n.orelse, st))
 
     def ev_Lambda(self, n, st):
         st2 = st.copy()
@@ -830,6 +902,16 @@ class Evaluator(object):
             raise Unmodelled('loop target %s' % src(target))
 
     def ev_Call(self, n, st):
+        if getattr(self, 'inline', False) and self.ctx is not None \
+                and getattr(self, 'expr_inline_depth', 0) < 3:
+            self.expr_inline_depth = getattr(self, 'expr_inline_depth',
+                                             0) + 1
+            try:
+                v = self._inline_expr(n, st)
+            finally:
+                self.expr_inline_depth -= 1
+            if v is not None:
+                return v
         fk = self.k(n.func, st)
         cname = self._call_name(fk)
         # builtins with algebraic meaning
@@ -889,6 +971,12 @@ class Evaluator(object):
             fk, args, cname = ('name', 'str'), [fk[1]], 'str'
         if cname in ('tuple', 'list', 'dict') and not args and not kws:
             return (cname, ())
+        if cname == 'bool' and len(args) == 1 and not kws:
+            return as_bool(args[0])
+        if cname in ('set', 'frozenset') and len(args) == 1 and not kws \
+                and args[0][0] == 'comp' and args[0][1] in ('gen', 'list') \
+                and cname == 'set':
+            return ('comp', 'set') + args[0][2:]    # set(x for ..) == {x for ..}
         if cname == 'getattr' and len(args) == 2 and not kws \
                 and args[1][0] == 'const' and isinstance(args[1][1], str):
             return ('attr', args[0], args[1][1])
@@ -951,6 +1039,45 @@ class Evaluator(object):
         else:
             raise Unmodelled('loop target %s' % src(target))
 
+    def _bind_target_value(self, target, val, st):
+        if isinstance(target, ast.Name):
+            st.env[target.id] = val
+        elif isinstance(target, (ast.Tuple, ast.List)):
+            for i, e in enumerate(target.elts):
+                self._bind_target_value(
+                    e, ('sub', val, ('num', Fraction(i))), st)
+        else:
+            raise Unmodelled('loop target %s' % src(target))
+
+    def _indexed_iter(self, it_node, target, st):
+        """(xs node, index name, start, element target) for
+        `enumerate(xs[, start])` with an (i, x) target and for
+        `range(len(xs))` / `range(0, len(xs))` with a plain name."""
+        def is_len(node):
+            return isinstance(node, ast.Call) and isinstance(
+                node.func, ast.Name) and node.func.id == 'len' \
+                and len(node.args) == 1 and not node.keywords
+        if not (isinstance(it_node, ast.Call) and isinstance(
+                it_node.func, ast.Name) and not it_node.keywords):
+            return None
+        f = it_node.func.id
+        if f in st.env:
+            return None
+        if f == 'enumerate' and 1 <= len(it_node.args) <= 2 and isinstance(
+                target, (ast.Tuple, ast.List)) and len(target.elts) == 2 \
+                and isinstance(target.elts[0], ast.Name):
+            start = self.ev(it_node.args[1], st) if len(
+                it_node.args) == 2 else Poly.const(0)
+            return it_node.args[0], target.elts[0].id, start, target.elts[1]
+        if f == 'range' and isinstance(target, ast.Name) and (
+                (len(it_node.args) == 1 and is_len(it_node.args[0])) or (
+                    len(it_node.args) == 2 and isinstance(
+                        it_node.args[0], ast.Constant)
+                    and it_node.args[0].value == 0
+                    and is_len(it_node.args[1]))):
+            return it_node.args[-1].args[0], target.id, Poly.const(0), None
+        return None
+
     def _comp(self, n, st):
         st2 = st.copy()
         gens = []
@@ -974,6 +1101,21 @@ class Evaluator(object):
                 gens.extend(inner)
                 continue
             base = ('bv', self.depth)
+            idx = self._indexed_iter(g.iter, g.target, st2)
+            if idx is not None:
+                # enumerate(xs) / range(len(xs)): position and xs[position]
+                it_node, idx_name, start, tgt = idx
+                it = self.k(it_node, st2)
+                pos = ('bv', self.depth, 'idx')
+                st2.env[idx_name] = Poly.atom(pos) + to_poly(start)
+                if tgt is not None:
+                    self._bind_target_value(tgt, ('sub', it, pos), st2)
+                self.depth += 1
+                cl = set()
+                for c in g.ifs:
+                    cl |= lits_of(as_bool(self.k(c, st2)))
+                gens.append((base, it, tuple(sorted(cl, key=_sk))))
+                continue
             self.depth += 1
             self._bind_target(g.target, base, st2)
             cl = set()
@@ -984,7 +1126,7 @@ class Evaluator(object):
         if isinstance(n, ast.DictComp):
             elt = ('pair', self.k(n.key, st2), self.k(n.value, st2))
         else:
-            elt = self.k(n.elt, st2)
+            elt = lift_ifexp(self.k(n.elt, st2))
         self.depth = depth0
         kind = {'GeneratorExp': 'gen', 'ListComp': 'list',
                 'SetComp': 'set', 'DictComp': 'dict'}[type(n).__name__]
@@ -1246,6 +1388,8 @@ class Summarizer(Evaluator):
         self.inlined = []       # qualnames followed (for evidence)
         self.ph = 0
         self.appender_stack = []
+        self.loop_assigned = []
+        self.local_defs = {}
 
     def summarize(self, func, env=None):
         st = State(env=dict(env or {}))
@@ -1317,6 +1461,15 @@ class Summarizer(Evaluator):
         target = None
         kind = 'function'
         owner = None
+        if isinstance(f, ast.Name) and f.id in self.local_defs \
+                and f.id in self.locals_:
+            # a function nested in the one being summarised is part of it
+            target = self.local_defs[f.id]
+            qual = '<local>.' + f.id
+            if qual in self.inline_stack or len(self.inline_stack) \
+                    > INLINE_DEPTH or target.decorator_list:
+                return None
+            return target, qual, 'local'
         if isinstance(f, ast.Name):
             if f.id in self.locals_ or f.id in self.params_:
                 return None
@@ -1362,14 +1515,15 @@ class Summarizer(Evaluator):
                 > INLINE_DEPTH:
             return None
         for x in ast.walk(target):
-            if isinstance(x, (ast.Yield, ast.YieldFrom, ast.Await)):
+            if isinstance(x, (ast.YieldFrom, ast.Await)):
                 return None
         if not _is_new_function(rel, qual):
             return None
         return target, qual, kind
 
-    def _inline(self, n, call, st):
-        target, qual, kind = self._resolve(call)
+    def _bind_args(self, call, target, kind, st):
+        """Parameter name -> value for a call, or None if it cannot be
+        bound positionally/by keyword in the obvious way."""
         a = target.args
         if a.vararg or a.kwarg or a.kwonlyargs or getattr(
                 a, 'posonlyargs', []):
@@ -1378,13 +1532,11 @@ class Summarizer(Evaluator):
                 kw.arg is None for kw in call.keywords):
             return None
         names = [x.arg for x in a.args]
-        probe = st.copy()
-        probe.trace = list(st.trace)
         vals = {}
         pos = []
         if kind in ('method', 'classbound'):
-            pos.append(self.ev(call.func.value, probe))
-        pos.extend(self.ev(x, probe) for x in call.args)
+            pos.append(self.ev(call.func.value, st))
+        pos.extend(self.ev(x, st) for x in call.args)
         if len(pos) > len(names):
             return None
         for nm, v in zip(names, pos):
@@ -1392,7 +1544,7 @@ class Summarizer(Evaluator):
         for kw in call.keywords:
             if kw.arg not in names or kw.arg in vals:
                 return None
-            vals[kw.arg] = self.ev(kw.value, probe)
+            vals[kw.arg] = self.ev(kw.value, st)
         nd = len(a.defaults)
         for i, d in enumerate(a.defaults):
             nm = names[len(names) - nd + i]
@@ -1400,14 +1552,75 @@ class Summarizer(Evaluator):
                 vals[nm] = self.ev(d, State())
         if set(vals) != set(names):
             return None
-        caller_env = st.env
+        return vals
+
+    def _callee_body(self, target):
+        """Body to summarise for a followed helper.  A generator function
+        whose yields are plain statements is the list of what it yields
+        (consumers that only iterate do not tell the difference)."""
+        ys = [x for x in ast.walk(target) if isinstance(x, ast.Yield)]
+        if not ys:
+            return target.body, ()
+        stmts = set(id(x.value) for x in ast.walk(target)
+                    if isinstance(x, ast.Expr))
+        if any(id(y) not in stmts for y in ys):
+            raise Unmodelled('yield used as an expression')
+
+        def conv(stmt):
+            if isinstance(stmt, ast.Expr) and isinstance(stmt.value,
+                                                         ast.Yield):
+                v = stmt.value.value or ast.Constant(value=None)
+                c = ast.Expr(value=ast.Call(func=ast.Attribute(
+                    value=ast.Name(id='__gen', ctx=ast.Load()),
+                    attr='append', ctx=ast.Load()), args=[v], keywords=[]))
+                return ast.fix_missing_locations(ast.copy_location(c, stmt))
+            return stmt
+
+        def walk(node):
+            if isinstance(node, ast.stmt) and not isinstance(
+                    node, (ast.FunctionDef, ast.ClassDef)):
+                node = conv(node)
+                changed = {}
+                for name, val in ast.iter_fields(node):
+                    if isinstance(val, list) and val and isinstance(
+                            val[0], ast.stmt):
+                        nl = [walk(x) for x in val]
+                        if any(a is not b for a, b in zip(nl, val)):
+                            changed[name] = nl
+                if changed:
+                    fields = dict(ast.iter_fields(node))
+                    fields.update(changed)
+                    node = ast.copy_location(type(node)(**fields), node)
+            return node
+        first = target.body[0]
+        init = ast.fix_missing_locations(ast.copy_location(ast.Assign(
+            targets=[ast.Name(id='__gen', ctx=ast.Store())],
+            value=ast.List(elts=[], ctx=ast.Load())), first))
+        ret = ast.fix_missing_locations(ast.copy_location(ast.Return(
+            value=ast.Name(id='__gen', ctx=ast.Load())), target.body[-1]))
+        return [init] + [walk(x) for x in target.body] + [ret], ('__gen',)
+
+    def _run_callee(self, call, target, qual, kind, st, closure=None):
+        """Summarise the callee from a state that shares `st`'s heap and
+        trace; returns the list of (state, outcome) or None."""
+        vals = self._bind_args(call, target, kind, st)
+        if vals is None:
+            return None
+        env = dict(closure or {})
+        env.update(vals)
         saved = (self.locals_, self.params_)
-        callee_st = State(dict(vals), probe.heap, probe.trace)
-        self.locals_, self.params_ = _locals_of(target)
+        callee_st = State(env, st.heap, st.trace)
+        try:
+            body, extra = self._callee_body(target)
+        except Unmodelled:
+            call._no_inline = True
+            return None
+        loc, par = _locals_of(target)
+        self.locals_, self.params_ = loc | set(extra), par
         self.inline_stack.append(qual)
         try:
             try:
-                outs = self.block(target.body, callee_st)
+                outs = self.block(body, callee_st)
             except Unmodelled:
                 call._no_inline = True
                 return None
@@ -1416,13 +1629,31 @@ class Summarizer(Evaluator):
             self.locals_, self.params_ = saved
         if qual not in self.inlined:
             self.inlined.append(qual)
-        results = []
-        for s, o in outs:
+        fixed = []
+        for s2, o in outs:
             if o is None:
                 o = ('return', ('const', None))
             if o[0] in ('break', 'continue'):
                 raise Unmodelled('%s outside loop in %s' % (o[0], qual))
+            fixed.append((s2, o))
+        return fixed
+
+    def _inline(self, n, call, st):
+        target, qual, kind = self._resolve(call)
+        probe = st.copy()
+        probe.trace = list(st.trace)
+        closure = st.env if kind == 'local' else None
+        outs = self._run_callee(call, target, qual, kind, probe, closure)
+        if outs is None:
+            return None
+        caller_env = st.env
+        results = []
+        for s, o in outs:
             back = State(dict(caller_env), s.heap, s.trace)
+            if kind == 'local':
+                # a nested function may rebind nothing of its caller, but
+                # what it mutates is shared (the heap already is)
+                pass
             if o[0] == 'raise':
                 results.append((back, o))
                 continue
@@ -1433,6 +1664,46 @@ class Summarizer(Evaluator):
                 ast.Name(id=ph, ctx=ast.Load()), call))
             results.extend(self.stmt(n2, back))
         return results
+
+    def _inline_expr(self, call, st):
+        """A followed helper inside an expression that is not evaluated once
+        per statement (loop test, comprehension, lambda): only helpers that
+        merely compute a value (no effect, no raise) are followed; several
+        paths become a conditional expression."""
+        r = self._resolve(call)
+        if r is None:
+            return None
+        target, qual, kind = r
+        probe = State(dict(st.env), dict(st.heap), [])
+        closure = st.env if kind == 'local' else None
+        before = list(self.inlined)
+        outs = self._run_callee(call, target, qual, kind, probe, closure)
+        if outs is None:
+            return None
+        vals = []
+        for s, o in outs:
+            if o[0] != 'return' or any(
+                    e[0] not in ('cond', 'call', 'unbound')
+                    for e in s.trace):
+                self.inlined[:] = before
+                call._no_inline = True
+                return None
+            lits = set()
+            for e in s.trace:
+                if e[0] == 'cond':
+                    lits |= lits_of(e[1], e[2])
+            vals.append((tuple(sorted(lits, key=_sk)), o[1]))
+        if len(vals) == 1:
+            return poly_of_key(vals[0][1])
+        if len(vals) == 2 and len(vals[0][0]) == 1 and len(vals[1][0]) == 1 \
+                and vals[0][0][0] == b_not(vals[1][0][0]):
+            return ifexp(vals[0][0][0], vals[0][1], vals[1][1])
+        vals.sort(key=_sk)
+        out = vals[-1][1]
+        for lits, v in reversed(vals[:-1]):
+            c = lits[0] if len(lits) == 1 else ('and', lits)
+            out = ifexp(c, v, out)
+        return out
 
     def st_Pass(self, n, st):
         return [(st, None)]
@@ -1454,6 +1725,8 @@ class Summarizer(Evaluator):
 
     def st_FunctionDef(self, n, st):
         st.env[n.name] = ('localfunc', n.name)
+        if isinstance(n, ast.FunctionDef):
+            self.local_defs[n.name] = n
         return [(st, None)]
 
     st_ClassDef = st_FunctionDef
@@ -1470,6 +1743,38 @@ class Summarizer(Evaluator):
             st.trace.append(('append', n.value.func.value.id,
                              self.k(n.value.args[0], st), n.lineno))
             return [(st, None)]
+        c = n.value
+        if isinstance(c, ast.Call) and isinstance(c.func, ast.Attribute) \
+                and isinstance(c.func.value, ast.Name) and c.func.attr in (
+                    'append', 'extend') and len(c.args) == 1 \
+                and not c.keywords:
+            name = c.func.value.id
+            cur = st.env.get(name)
+            if name in getattr(self, 'locals_', ()) and cur is not None \
+                    and listlike(key(cur)):
+                arg = self.k(c.args[0], st)
+                if not self.appender_stack or name in \
+                        self.loop_assigned[-1]:
+                    # a list local to this function (or to this iteration)
+                    # built piece by piece: keep its value, not the calls
+                    if c.func.attr == 'append':
+                        add = ('list', (arg,))
+                    elif arg[0] == 'comp' and arg[1] in ('gen', 'list'):
+                        add = ('comp', 'list') + arg[2:]
+                    elif listlike(arg):
+                        add = arg
+                    else:
+                        add = None
+                    if add is not None:
+                        st.env[name] = strcat(key(cur), add)
+                        return [(st, None)]
+                # changed in a way that is not modelled: its value is no
+                # longer the value it was bound to
+                st.trace.append(('expr', ('call', ('attr', key(cur),
+                                                   c.func.attr), (arg,), ()),
+                                 n.lineno))
+                st.env[name] = ('changed', key(cur), c.func.attr, arg)
+                return [(st, None)]
         v = self.k(n.value, st)
         st.trace.append(('expr', v, n.lineno))
         return [(st, None)]
@@ -1622,9 +1927,17 @@ class Summarizer(Evaluator):
         for name, nodes in out.items():
             pv = pre.env.get(name)
             if len(nodes) == 1 and uses.get(name) == 1 and pv is not None \
-                    and key(pv) == ('list', ()):
+                    and listlike(key(pv)):
                 names.add(name)
         return names
+
+    def _assigned_names(self, body):
+        out = set()
+        for node in ast.walk(ast.Module(body=body, type_ignores=[])):
+            if isinstance(node, ast.Name) and isinstance(node.ctx,
+                                                         ast.Store):
+                out.add(node.id)
+        return out
 
     def _dict_builders(self, body, pre):
         """Names bound to an empty dict before the loop whose only use in
@@ -1801,6 +2114,7 @@ class Summarizer(Evaluator):
         self._havoc(body, body_st)
         body_st0 = dict(body_st.env)
         self.appender_stack.append(appenders | dictb)
+        self.loop_assigned.append(self._assigned_names(body))
         appenders = appenders | dictb
         self.depth += 1
         try:
@@ -1808,6 +2122,7 @@ class Summarizer(Evaluator):
         finally:
             self.depth -= 1
             self.appender_stack.pop()
+            self.loop_assigned.pop()
         results = []
         fall_states = []
         for s, o in outs:
@@ -1871,22 +2186,24 @@ class Summarizer(Evaluator):
                        and e[1] == name]
                 if evs:
                     hits.append((s, evs))
+            prek = key(pre.env[name])
             changed = [(s, s.env.get(name)) for s, o in fall_states
                        if s.env.get(name) is not None
-                       and key(s.env[name]) != (
-                           ('dict', ()) if name in dictb else ('list', ()))]
+                       and key(s.env[name]) != prek]
             if has_break:
                 continue
             if len(hits) == 1 and len(hits[0][1]) == 1 and not changed:
                 s, evs = hits[0]
                 conds = path_lits(s) if len(fall_states) > 1 else ()
                 base, it, _ = gens_key[0]
-                newvals[name] = ('comp', 'dict' if name in dictb else 'list',
-                                 evs[0][2], ((base, it, conds),))
+                cv = ('comp', 'dict' if name in dictb else 'list',
+                      evs[0][2], ((base, it, conds),))
+                newvals[name] = cv if name in dictb else strcat(prek, cv)
                 done_app.add(name)
-            elif not hits and len(changed) == 1 and key(
-                    changed[0][1])[0] == 'comp' and key(
-                    changed[0][1])[1] == 'list' and name not in dictb:
+            elif not hits and len(changed) == 1 and name not in dictb \
+                    and prek == ('list', ()) and key(
+                        changed[0][1])[0] == 'comp' and key(
+                        changed[0][1])[1] == 'list':
                 s, v = changed[0]
                 v = key(v)
                 conds = path_lits(s) if len(fall_states) > 1 else ()
@@ -1903,10 +2220,15 @@ class Summarizer(Evaluator):
                                                 e[2][1]), e[2][2], e[3])
                     else:
                         s.trace[i] = ('expr', ('call', (
-                            'attr', ('list', ()), 'append'), (e[2],), ()),
-                            e[3])
+                            'attr', key(pre.env[e[1]]), 'append'),
+                            (e[2],), ()), e[3])
         for s, o in fall_states:
             s.trace[:] = [e for e in s.trace if e[0] != 'append']
+        for name in sorted(appenders - done_app):
+            if name not in dictb:
+                # appended to in a way that is not a comprehension
+                newvals[name] = ('changed', key(pre.env[name]), 'loop',
+                                 gens_key)
         body_events = []
         for s, o in fall_states:
             body_events.append((tuple(s.trace), o[0] if o else None))
@@ -2013,6 +2335,11 @@ class Summarizer(Evaluator):
             n.iter, (ast.Tuple, ast.List)) else None
         if elts is not None and elts:
             return self._unrolled(n, elts, st)
+        if isinstance(n.iter, ast.Name) and n.iter.id in st.env:
+            # a local bound to a spelled-out tuple/list
+            vk = key(st.env[n.iter.id])
+            if vk[0] in ('tuple', 'list') and 0 < len(vk[1]) <= 8:
+                return self._unrolled(n, [('key', x) for x in vk[1]], st)
         it_node, target, body = n.iter, n.target, n.body
         idx_name, start = None, None
         if isinstance(it_node, ast.Call) and isinstance(
@@ -2089,16 +2416,6 @@ class Summarizer(Evaluator):
             node.func, ast.Name) and node.func.id == 'len' \
             and len(node.args) == 1 and not node.keywords
 
-    def _bind_target_value(self, target, val, st):
-        if isinstance(target, ast.Name):
-            st.env[target.id] = val
-        elif isinstance(target, (ast.Tuple, ast.List)):
-            for i, e in enumerate(target.elts):
-                self._bind_target_value(
-                    e, ('sub', val, ('num', Fraction(i))), st)
-        else:
-            raise Unmodelled('loop target %s' % src(target))
-
     def _unrolled(self, n, elts, st):
         """`for x in (a, b, c): body` -- the iterable is spelled out, so the
         loop is its body once per element."""
@@ -2109,10 +2426,13 @@ class Summarizer(Evaluator):
                 if o is not None:
                     nxt.append((s, o))
                     continue
-                fake = ast.Assign(targets=[n.target], value=e)
-                ast.copy_location(fake, n)
-                ast.fix_missing_locations(fake)
-                self.st_Assign(fake, s)
+                if isinstance(e, tuple) and e[0] == 'key':
+                    self.assign(n.target, poly_of_key(e[1]), s, n.lineno)
+                else:
+                    fake = ast.Assign(targets=[n.target], value=e)
+                    ast.copy_location(fake, n)
+                    ast.fix_missing_locations(fake)
+                    self.st_Assign(fake, s)
                 for s2, o2 in self.block(n.body, s):
                     if o2 is not None and o2[0] == 'continue':
                         o2 = None
